@@ -1,5 +1,11 @@
-"""Insertion-ordered map model (collections.OrderedDict) -- see DESIGN.md 3.3.  Filled in with C06."""
-from .values import Model, Unsupported
+"""Insertion-ordered map model (collections.OrderedDict) -- see DESIGN.md 3.3.
+
+Abstract view: n entries; key(i), value(i) for 0 <= i < n in insertion order; keys pairwise distinct.
+Values are opaque items (strings or argument maps)."""
+import z3
+
+from . import ops
+from .values import Model, Unsupported, SymSeq, next_oid
 
 
 class ArgMap(Model):
@@ -9,25 +15,52 @@ class ArgMap(Model):
 class OrdMap(Model):
     clsname = "OrderedDict"
 
-    def __init__(self):
-        self.items = []   # concrete-shape placeholder
+    def __init__(self, n, keys=None, tag="om"):
+        self.n = n
+        self.keys = keys
+        self.tag = tag
+        self.oid = next_oid()
+        self.fresh = False
 
     @classmethod
     def empty(cls, ctx):
-        return cls()
+        m = cls(z3.IntVal(0))
+        m.fresh = True
+        return m
+
+    @classmethod
+    def symbolic(cls, ctx, name="pending"):
+        n = ctx.int(name + ".len")
+        ctx.assume(n >= 0, definitional=True)
+        return cls(n, tag=name)
+
+    def is_empty(self):
+        return self.n == 0
 
     def call_method(self, interp, name, args, kwargs, node):
         if name == "__bool__":
-            return len(self.items) > 0
+            return self.n > 0
+        if name == "__len__":
+            return self.n
+        if name == "clear":
+            interp.ctx.log_write(self, "*")
+            self.n = z3.IntVal(0)
+            return None
         raise Unsupported("OrderedDict.%s" % name, node)
 
-    def copy(self, memo):
-        c = OrdMap()
-        c.items = list(self.items)
+    def copy(self, memo=None):
+        c = OrdMap(self.n, self.keys, self.tag)
+        c.fresh = True
         return c
 
     def struct_eq(self, other):
-        return self.items == other.items
+        if self.keys is None and other.keys is None:
+            # contents are not modelled at this level: only emptiness can be compared
+            return z3.And(self.n == 0, other.n == 0) if not (self is other) else True
+        raise Unsupported("OrderedDict comparison")
 
     def read(self, key):
         return self
+
+    def children(self):
+        return []
